@@ -312,12 +312,12 @@ def to_xml(node: Node, parent: Node = None, level: int = 0, skip_ns: bool = Fals
         open_tag = f"{indent}<{tag}{attributes}>\n"
         close_tag = f"{indent}</{tag}>\n"
     else:
-        content = escape(node.content)
+        content = escape(node.content, {"\r": "&#13;"})
         open_tag = f"{indent}<{tag}{attributes}>{content}"
         close_tag = f"</{tag}>\n"
 
     if node.tail is not None:
-        tail = escape(node.tail)
+        tail = escape(node.tail, {"\r": "&#13;"})
         close_tag += tail
 
     xml += open_tag
